@@ -31,7 +31,8 @@ import (
 )
 
 // ProvOp is one operation of a job: "create" (create+write+Finish object N),
-// "sync" (Provider.Sync), "remove" (remove object N, created earlier by the
+// "link" (LinkOrCopyFromLocal of a durable local file as object N, the
+// ingestion path), "sync" (Provider.Sync), "remove" (remove object N, created earlier by the
 // same job).
 type ProvOp struct {
 	K string `json:"k"`
@@ -71,7 +72,11 @@ func genProvPlan(t *rapid.T) *ProvPlan {
 			default:
 				num++
 				mine = append(mine, num)
-				ops = append(ops, ProvOp{K: "create", N: num})
+				kind := "create"
+				if rapid.IntRange(0, 2).Draw(t, fmt.Sprintf("pj%dl%d", j, i)) == 0 {
+					kind = "link"
+				}
+				ops = append(ops, ProvOp{K: kind, N: num})
 				if rapid.IntRange(0, 3).Draw(t, fmt.Sprintf("pj%ds%d", j, i)) > 0 {
 					ops = append(ops, ProvOp{K: "sync"})
 				}
@@ -189,6 +194,15 @@ func (g *gateFS) OpenDir(name string) (vfs.File, error) {
 	return &gateFile{File: f, g: g}, nil
 }
 
+// Link parks before and after: a provider that registers an object before its
+// directory entry exists leaves a window on this side of the operation.
+func (g *gateFS) Link(oldname, newname string) error {
+	g.c.yield()
+	err := g.FS.Link(oldname, newname)
+	g.c.yield()
+	return err
+}
+
 func (g *gateFS) Remove(name string) error {
 	err := g.FS.Remove(name)
 	g.c.yield()
@@ -242,6 +256,8 @@ type provRun struct {
 	inflight  []int
 	// interleaved: Syncs during which another job completed a Create or Remove call
 	interleaved int
+	gfs         *gateFS
+	links       int
 }
 
 func (r *provRun) tick() int { r.clock++; return r.clock }
@@ -268,6 +284,15 @@ func (r *provRun) job(j int) {
 				r.err = fmt.Errorf("job %d: Finish(%d): unexpected error %v", j, op.N, err)
 				return
 			}
+		case "link":
+			// the ingestion path: the object is a hard link to a local file
+			src := fmt.Sprintf("ext/src-%06d", op.N)
+			if _, err := r.prov.LinkOrCopyFromLocal(ctx, r.gfs, src, base.FileTypeTable, base.DiskFileNum(op.N), objstorage.CreateOptions{}); err != nil {
+				r.err = fmt.Errorf("job %d: LinkOrCopyFromLocal(%d): unexpected error %v", j, op.N, err)
+				return
+			}
+			r.createdAt[op.N] = r.tick()
+			r.links++
 		case "remove":
 			r.remCalled[op.N] = r.tick()
 			if err := r.prov.Remove(base.FileTypeTable, base.DiskFileNum(op.N)); err != nil {
@@ -335,13 +360,43 @@ func (r *provRun) job(j int) {
 func runProvSchedule(p *ProvPlan, sched []int, forced []int) (*provRun, []int, error) {
 	mem := vfs.NewCrashableMem()
 	c := newPcoop(len(p.Jobs))
-	st := objstorageprovider.DefaultSettings(&gateFS{FS: mem, c: c}, "")
+	// sources of "link" operations, durable
+	if err := mem.MkdirAll("ext", 0o755); err != nil {
+		return nil, nil, err
+	}
+	for _, ops := range p.Jobs {
+		for _, o := range ops {
+			if o.K == "link" {
+				f, err := mem.Create(fmt.Sprintf("ext/src-%06d", o.N), vfs.WriteCategoryUnspecified)
+				if err == nil {
+					_, err = f.Write([]byte(fmt.Sprintf("object-%06d-payload", o.N)))
+				}
+				if err == nil {
+					err = f.Sync()
+				}
+				if err == nil {
+					err = f.Close()
+				}
+				if err != nil {
+					return nil, nil, err
+				}
+			}
+		}
+	}
+	for _, d := range []string{"ext", ""} {
+		if df, err := mem.OpenDir(d); err == nil {
+			_ = df.Sync()
+			_ = df.Close()
+		}
+	}
+	gfs := &gateFS{FS: mem, c: c}
+	st := objstorageprovider.DefaultSettings(gfs, "")
 	st.Logger = base.NoopLoggerAndTracer{}
 	prov, err := objstorageprovider.Open(st)
 	if err != nil {
 		return nil, nil, fmt.Errorf("provider open: %v", err)
 	}
-	r := &provRun{p: p, mem: mem, prov: prov, c: c, createdAt: map[int]int{}, removedAt: map[int]int{}, remCalled: map[int]int{}, inflight: make([]int, len(p.Jobs))}
+	r := &provRun{gfs: gfs, p: p, mem: mem, prov: prov, c: c, createdAt: map[int]int{}, removedAt: map[int]int{}, remCalled: map[int]int{}, inflight: make([]int, len(p.Jobs))}
 	for j := range p.Jobs {
 		j := j
 		c.spawn(j, func() { r.job(j) })
@@ -388,6 +443,7 @@ func execProvPlan(p *ProvPlan) (map[string]int, error) {
 		C["prov-syncs-overlapping-another-sync"] += r.overlap
 		C["prov-syncs-interleaved-with-create-or-remove"] += r.interleaved
 		C["prov-sched-steps"] += r.c.steps
+		C["prov-links"] += r.links
 	}
 	if !p.Exhaustive {
 		r, _, err := runProvSchedule(p, p.Sched, nil)
